@@ -15,7 +15,11 @@ Any exception from constructing the resolver or from add_atoms, or more than STE
 is a crash/hang bucket.
 
 Dropped w.r.t. DESIGN.md: nodeps / drop_cycles resolvers (they ignore dependencies on purpose, so closure is not
-promised), USE-conditional dependencies, blockers inside any-of groups, built (binary) packages.
+promised), USE-conditional dependencies, blockers inside any-of groups, built (binary) packages, packages whose
+blocker matches themselves.  Build-time classes (DEPEND/BDEPEND/IDEPEND) also count as satisfied by the state right
+before the package's own operation (the installed version it replaces is present while it is built).
+Violation buckets carry a diagnosis computed from the plan (see resolverworld.plan_problems) so that the two resolver
+limitations recorded as known findings do not hide other root causes.
 """
 
 import sys
@@ -199,7 +203,7 @@ def evaluate(ctx, world, record=True):
 
 def plan(tier, seed):
     if tier == "quick":
-        return [{"task": "worlds", "examples": 400} for _ in range(16)]
+        return [{"task": "worlds", "examples": 250} for _ in range(16)]
     return [{"task": "worlds", "examples": 8000} for _ in range(32)]
 
 
